@@ -60,7 +60,9 @@ type Plan struct {
 	Lean bool `json:"lean,omitempty"`
 	// AllowUncleanRestart lets a plan Start an election object again after a stop call that returned while
 	// the object's goroutines were still running (regression plans of the known WaitGroup-reuse finding).
-	AllowUncleanRestart bool `json:"allow_unclean_restart,omitempty"`
+	AllowUncleanRestart bool `json:"allow_unclean_restart,omitempty"` // (default behaviour now; kept for old replay files)
+	// CleanRestartsOnly: an object whose stop call failed or gave up waiting is restarted as a new election.
+	CleanRestartsOnly bool `json:"clean_restarts_only,omitempty"`
 }
 
 type Inst struct {
